@@ -526,11 +526,16 @@ def r5_naming_selection(ctx):
               "documented mapping: upper case, dots to underscores; identity when renaming is off")
     sel = ctx.fn(CF + "export.py", "ExportConfig.select")
     b = [norm(x) for x in K.body_nodoc(sel)]
-    ctx.check(b == ["self.data = self.env.data(self.dtype, query=query, tags=tags)"], CF + "export.py", "ExportConfig.select", "selection replaces the exported set by the queried/tagged subset", detail=b)
+    _selection(ctx, sel)
     for f, cname in [(x[1], x[2]) for x in BACKENDS] + [("export_bash.py", "ExportConfigBash"), ("export.py", "ExportConfig")]:
         fn = ctx.fn(CF + f, f"{cname}.parse")
-        its = [norm(l.iter) for l in ast.walk(fn) if isinstance(l, ast.For) and "self." in norm(l.iter)]
-        ctx.check(bool(its) and all(i in ("self.data.items()", "self.includes") for i in its), CF + f, f"{cname}.parse", "only the selected parameters are emitted", detail=its)
+        its = [norm(l.iter) for l in ast.walk(fn) if isinstance(l, (ast.For, ast.comprehension)) and "self." in norm(l.iter)]
+        full = [i for i in its if "self.env" in i]        # the environment holds every parameter, selected or not
+        what = "only the selected parameters are emitted"
+        if full:
+            ctx.violated(CF + f, f"{cname}.parse", what, detail=full, expected="iterate self.data (what select() left)")
+        else:
+            ctx.form(any(i.startswith("self.data") or "(self.data" in i for i in its), CF + f, f"{cname}.parse", what, detail=its)
     bodies = {}
     for f, cname, dump in (("export_json.py", "ExportConfigJSON", "json.dumps"), ("export_yaml.py", "ExportConfigYAML", "yaml.dump"), ("export_toml.py", "ExportConfigTOML", "toml.dumps")):
         fn = ctx.fn(CF + f, f"{cname}.parse")
@@ -540,6 +545,35 @@ def r5_naming_selection(ctx):
     ctx.form(all(v == vals[0] for v in vals), CF, "ExportConfigJSON/YAML/TOML.parse", "the three data formats differ only in the dumper", detail=None if all(v == vals[0] for v in vals) else bodies)
     s = " ".join(norm(x) for x in K.body_nodoc(ctx.fn(CF + "export_json.py", "ExportConfigJSON.parse")))
     ctx.form("{'value': data[key][0], 'unit': data[key][1]}" in s and "data[key] = data[key][0]" in s, CF, "ExportConfigJSON.parse", "a (value, unit) pair becomes {'value','unit'} or the bare value")
+
+
+def _selection(ctx, sel):
+    """select(query, tags): the exported set becomes env.data(dtype, query=query, tags=tags) - both filters handed on."""
+    from ..flowexpr import paths as _paths
+    rel, q = CF + "export.py", "ExportConfig.select"
+    what = "selection replaces the exported set by the queried/tagged subset"
+    pa = [a.arg for a in sel.args.args[1:]]
+    stores = [e.resolved for p_ in _paths(sel) for e in p_.events if e.kind == "store" and e.extra == "self.data" and e.resolved is not None]
+    if not stores:
+        ctx.violated(rel, q, what, detail="self.data is not replaced", expected="self.data = self.env.data(self.dtype, query=query, tags=tags)") if not any(
+            isinstance(c, ast.Call) for c in ast.walk(sel)) else ctx.form(False, rel, q, what, detail=[norm(x) for x in K.body_nodoc(sel)][:3])
+        return
+    skipping = [[f"{norm(t.resolved)} is {t.extra}" for t in p_.tests()] for p_ in _paths(sel) if p_.status != "raise"
+                and not any(e.kind == "store" and e.extra == "self.data" for e in p_.events)]
+    if skipping:
+        ctx.violated(rel, q, what, detail={"paths that leave the previous selection in place": skipping[:2]},
+                     expected="every call of select() recomputes the set (select() without filters gives everything back)")
+    for st in stores:
+        if not (isinstance(st, ast.Call) and norm(st.func) == "self.env.data"):
+            ctx.form(False, rel, q, what, detail=norm(st)[:100])
+            continue
+        kw = {k.arg: norm(k.value) for k in st.keywords if k.arg}
+        pos = [norm(a) for a in st.args]
+        missing = [p_ for p_ in pa if kw.get(p_) != p_ and p_ not in pos]
+        if missing:
+            ctx.violated(rel, q, what, detail={"call": norm(st)[:100], "filters not handed on": missing}, expected="query=query, tags=tags")
+        else:
+            ctx.holds(rel, q, what)
 
 
 def _alpha(stmts):
